@@ -2,6 +2,8 @@ import I2N.Lemmas.Policy
 import I2N.Spec.Policy
 /-! How the functions of the policy model move the store: frame (`Same`), no-change (`Eqv`) and
 monotonicity (`Mono`) lemmas, lifted from the backend primitives to whole calls. -/
+set_option linter.unusedSimpArgs false
+
 namespace I2N.Policy
 open I2N.Extracted.Policy
 
